@@ -22,7 +22,8 @@ RULE = ("full product scatterer x theory x scale factor x detector kind; "
 ASSUMPTIONS = ["scaling by a power of two is exact in IEEE arithmetic (no "
                "under/overflow in the explored range)",
                "alphabet values only"]
-TOLERANCES = {"pow2": "bit-identical", "decimal": 1e-9, "medium": 1e-9,
+TOLERANCES = {"pow2": "bit-identical (T-matrix: 1e-11, cube root of the "
+              "volume)", "decimal": 1e-9, "medium": 1e-9,
               "cabs-absolute": "1e-10 Cext when the index is real"}
 TIMEOUT = 600
 
@@ -151,8 +152,19 @@ def _compare(ck, case_desc, base, got, pow2, s, tol):
                     "%s: cross sections do not scale with s^2 (err %.2e): "
                     "%r vs %r" % (case_desc, err, g.tolist(), b.tolist()))
             continue
-        if pow2:
+        if pow2 and not case_desc.startswith("tm-"):
             ck.same_bits("scale-pow2:" + name, g, b, case_desc + " " + name)
+        elif pow2:
+            # the T-matrix front end takes a cube root of the particle
+            # volume: (2^3k v)^(1/3) is 2^k v^(1/3) only to rounding, so
+            # power-of-two scaling is exact to ~1 ulp, not bit for bit
+            sc = float(np.max(np.abs(b))) or 1.0
+            e = float(np.max(np.abs(g - b))) / sc if g.shape == b.shape \
+                else float("inf")
+            ck.metric("pow2-tmatrix:" + name, e)
+            ck.true("scale-pow2:" + name, e <= 1e-11,
+                    "%s: %s changes by %.2e under power-of-two rescaling" %
+                    (case_desc, name, e))
         else:
             sc = float(np.max(np.abs(b))) or 1.0
             e = float(np.max(np.abs(g - b))) / sc if g.shape == b.shape \
